@@ -791,6 +791,70 @@ CANON = Opts()
 CANON_NOSPLIT = CANON
 
 
+def merge_corner_inputs(rnd, env, cap=16):
+    """valid encodings in which a singular embedded message arrives in TWO occurrences built to exercise merge_messages'
+    per-member decisions (every occurrence is complete: it carries the required members):
+      absent-later: the later occurrence leaves one member of the earlier one out (carry-over, incl. the oneof member with
+                    field index 0 and deprecated oneof members);
+      empty-later:  the later occurrence sets a member the earlier one holds to its EXPLICIT empty / zero value (an empty
+                    string or bytes value, a zero scalar of a field with a has flag, a zero oneof member): the last one wins;
+      other-later:  the later occurrence is another random message of the type.
+    (implicit-presence scalars / bytes written as explicit zero are listed finding 12 and are not produced.)
+    Returns [(d, bytes, kind)]."""
+    out = []
+    cands = [(desc, f) for desc in env.msgs for f in desc.fields if f.type == 'MESSAGE' and f.label != 'REP' and env.msgs[f.sub].fields]
+    rnd.shuffle(cands)
+    zero = {0: [0], 1: [0] * 8, 2: [0], 5: [0] * 4}
+    for desc, f in cands:
+        S = env.msgs[f.sub]
+        for kind in ('absent-later', 'empty-later', 'other-later'):
+            if len(out) >= cap:
+                return out
+            m = gen_msg(rnd, env, desc.idx, canon=True)
+            A = gen_msg(rnd, env, f.sub, depth=1, canon=True)
+            # select as many oneof members of A as possible, preferring the lowest-numbered member half of the time
+            for g in range(S.n_oneofs):
+                mem = [x for x in S.fields if x.group() == g and not (x.type == 'MESSAGE')]
+                if mem and A.unions[g][0] == 0:
+                    x = mem[0] if rnd.random() < 0.5 else rnd.choice(mem)
+                    A.unions[g] = (x.id, gen_cell(rnd, env, x, 2, canon=True))
+            i = desc.fields.index(f)
+            if f.group() is not None:
+                m.unions[f.group()] = (f.id, ('G', A))
+            else:
+                m.slots[i] = ('S', 0, ('G', A))
+            arecs = msg_records(env, A, CANON)
+            req = set(x.id for x in S.fields if x.label == 'REQ')
+            held = [fid for fid, _ in arecs if fid > 0 and fid not in req]
+            if kind == 'other-later':
+                B = gen_msg(rnd, env, f.sub, depth=2, canon=True)
+                brecs = [r for _, r in msg_records(env, B, CANON)]
+            elif kind == 'absent-later':
+                if not held:
+                    continue
+                gone = rnd.choice(held)
+                brecs = [r for fid, r in arecs if fid != gone and (fid in req or rnd.random() < 0.6)]
+            else:
+                ok = [fid for fid in held if S.by_id[fid].label != 'REP' and S.by_id[fid].type != 'MESSAGE'
+                      and (S.by_id[fid].type == 'STRING' or S.by_id[fid].label != 'NONE' or S.by_id[fid].group() is not None)]
+                if not ok:
+                    continue
+                z = S.by_id[rnd.choice(ok)]
+                brecs = [r for fid, r in arecs if fid in req or (fid != z.id and rnd.random() < 0.4)]
+                brecs.insert(rnd.randint(0, len(brecs)), key(z.id, WT[z.type]) + zero[WT[z.type]])
+            abody = [b for _, r in arecs for b in r]
+            bbody = [b for r in brecs for b in r]
+            top = []
+            for fid, r in msg_records(env, m, CANON):
+                if fid == f.id:
+                    top.append(key(f.id, 2) + lenpref(len(abody)) + abody)
+                    top.append(key(f.id, 2) + lenpref(len(bbody)) + bbody)
+                else:
+                    top.append(r)
+            out.append((desc.idx, [b for r in top for b in r], kind))
+    return out
+
+
 def oneof_replacement_failures(rnd, env, cap=16):
     """inputs (d, bytes): a complete message of type d, then a member A of one of its oneofs with a valid value, then a member B
     of the same oneof (every ordered pair, B = A included, at most cap per schema) that is rejected after A has been released:
